@@ -65,10 +65,13 @@ IfNoneMatchOK(kind, h) == h = "unset" \/ kind = "a" \/ h \in {"stale", "other"}
 CondOK(kind, ifm, ifnm) == IfMatchOK(kind, ifm) /\ IfNoneMatchOK(kind, ifnm)
 \* refusal codes contributed by the precondition headers
 CondRefusals(kind, ifm, ifnm) ==
-  (IF (ifm \notin {"bad"} /\ ~IfMatchOK(kind, ifm)) \/ (ifnm \notin {"bad"} /\ ~IfNoneMatchOK(kind, ifnm)) THEN {412} ELSE {})
+  (IF ((ifm # "bad" \/ kind = "a") /\ ~IfMatchOK(kind, ifm)) \/ (ifnm # "bad" /\ ~IfNoneMatchOK(kind, ifnm)) THEN {412} ELSE {})
   \cup (IF kind # "a" /\ (ifm = "bad" \/ ifnm = "bad") THEN {400} ELSE {})
-\* malformed header with nothing to compare it with: the statement leaves the outcome open
-CondUnconstrained(kind, ifm, ifnm) == kind = "a" /\ (ifm = "bad" \/ ifnm = "bad")
+\* A malformed header with nothing to compare it with is read literally from the statement: If-None-Match holds because the
+\* resource is absent (the request is carried out), If-Match fails because it is absent (412); 400 is only for an existing
+\* resource.  (An earlier version left this case open; a seeded change showed that the literal reading is the one the code
+\* implements and a regression of it would otherwise pass.)
+CondUnconstrained(kind, ifm, ifnm) == FALSE
 
 \* ---- request layer (headers), any method
 DepthBad(r) == r.depth = "bad"
